@@ -225,9 +225,9 @@ def _pt(case, dim):
                     if ok2:
                         if c.true("UDQ*p/notnone", got is not None, "UnitDualQuaternion * point returned None"):
                             _cmp(c, "UDQ*p/value", got, Rq @ P + t[:, None], tol, sc, real_scalar_negative=sgn < 0)
-                    ok2, Ts = c.lib("UDQ.SE3", D.SE3)
+                    ok2, Tudq = c.lib("UDQ.SE3", D.SE3)
                     if ok2:
-                        c.eq("UDQ.SE3/value", Ts.A, refs.rt(Rq, t), tol, sc)
+                        c.eq("UDQ.SE3/value", Tudq.A, refs.rt(Rq, t), tol, sc)
     if dim == 3 and N == 1:
         # composed unit dual quaternions: (D1 D2) p = D1 (D2 p) = R1 (R2 p + t2) + t1, for both signs of either factor
         qy = refs.q_of(case["Y"]["rot"])
